@@ -349,7 +349,14 @@ def b_sorted(it, args, kw):
     if _has_sym(items) or kw.get("key") is not None:
         if len(items) <= 1:
             return list(items)
-        raise OutOfSubset("sorted() of symbolic values / with key")
+        if len(items) <= 3:
+            # the order of symbolic / opaque items is unknown: every permutation is a possible result (over-approximation: an obligation must hold for each of them)
+            import itertools
+
+            perms = [list(p) for p in itertools.permutations(items)]
+            k = it.path.choose([(i, True) for i in range(len(perms))], "sorted-order")
+            return perms[k]
+        raise OutOfSubset("sorted() of more than 3 symbolic values / with key")
     return sorted(items, reverse=bool(kw.get("reverse", False)))
 
 
